@@ -3,10 +3,14 @@ package checks
 import (
 	"context"
 	"fmt"
+	"math"
 	"runtime"
 	"sort"
 	"strings"
 	"sync"
+	"time"
+
+	"github.com/sourcenetwork/immutable"
 
 	"github.com/sourcenetwork/defradb/client"
 	"github.com/sourcenetwork/defradb/internal/verifh/rep"
@@ -293,7 +297,7 @@ func c13DocIDs(r *rep.Run) (evals, distinct int) {
 		rep.HarnessError("%v", err)
 	}
 	defer d.Close()
-	sdl := `type K { i: Int  f: Float  s: String  b: Boolean  t: DateTime  j: JSON  ai: [Int]  as: [String!] }`
+	sdl := `type K { i: Int  f: Float  s: String  b: Boolean  t: DateTime  j: JSON  ai: [Int]  as: [String!]  bl: Blob  af: [Float] }`
 	if _, err := d.AddSchema(ctx, sdl); err != nil {
 		rep.HarnessError("%v", err)
 	}
@@ -306,19 +310,39 @@ func c13DocIDs(r *rep.Run) (evals, distinct int) {
 	type val struct {
 		json, gql string
 		goval     any
+		alts      []any // other Go representations of the same value accepted by NewDocFromMap
+	}
+	mustTime := func(s string) time.Time {
+		t, err := time.Parse(time.RFC3339Nano, s)
+		if err != nil {
+			rep.HarnessError("%v", err)
+		}
+		return t
 	}
 	alphabet := map[string][]val{
-		"i":  {{"0", "0", int64(0)}, {"-1", "-1", int64(-1)}, {"2147483647", "2147483647", int64(2147483647)}},
-		"f":  {{"0.5", "0.5", 0.5}, {"1e21", "1e21", 1e21}, {"-3.25", "-3.25", -3.25}, {"2", "2.0", float64(2)}},
-		"s":  {{`""`, `""`, ""}, {`"x"`, `"x"`, "x"}, {`"日本 \" q"`, `"日本 \" q"`, "日本 \" q"}},
-		"b":  {{"true", "true", true}, {"false", "false", false}},
-		"t":  {{`"2024-02-29T23:59:59.999999999Z"`, `"2024-02-29T23:59:59.999999999Z"`, "2024-02-29T23:59:59.999999999Z"}},
-		"j":  {{`{"b": 1, "a": [1, "x", null]}`, `{a: [1, "x", null], b: 1}`, map[string]any{"a": []any{1, "x", nil}, "b": 1}}},
-		"ai": {{"[1, 2, 3]", "[1, 2, 3]", []int64{1, 2, 3}}, {"[]", "[]", []int64{}}},
-		"as": {{`["a", ""]`, `["a", ""]`, []string{"a", ""}}},
+		"i": {{"0", "0", int64(0), []any{int(0), int32(0), float64(0)}}, {"-1", "-1", int64(-1), []any{int(-1), int8(-1)}},
+			{"2147483647", "2147483647", int64(2147483647), []any{int(2147483647), uint32(2147483647), float64(2147483647)}}},
+		"f": {{"0.5", "0.5", 0.5, []any{float32(0.5)}}, {"1e21", "1e21", 1e21, nil}, {"-3.25", "-3.25", -3.25, []any{float32(-3.25)}},
+			{"2", "2.0", float64(2), []any{int(2), int64(2), float32(2)}}, {"2", "2", float64(2), nil}, {"-0.0", "-0.0", math.Copysign(0, -1), nil}},
+		"s": {{`""`, `""`, "", nil}, {`"x"`, `"x"`, "x", nil}, {`"日本 \" q"`, `"日本 \" q"`, "日本 \" q", nil}},
+		"b": {{"true", "true", true, nil}, {"false", "false", false, nil}},
+		"t": {{`"2024-02-29T23:59:59.999999999Z"`, `"2024-02-29T23:59:59.999999999Z"`, "2024-02-29T23:59:59.999999999Z", []any{mustTime("2024-02-29T23:59:59.999999999Z")}},
+			{`"2020-06-01T12:00:00+02:00"`, `"2020-06-01T12:00:00+02:00"`, "2020-06-01T12:00:00+02:00", []any{mustTime("2020-06-01T12:00:00+02:00")}},
+			{`"2020-06-01T12:00:00Z"`, `"2020-06-01T12:00:00Z"`, "2020-06-01T12:00:00Z", []any{mustTime("2020-06-01T12:00:00Z")}}},
+		"j": {{`{"b": 1, "a": [1, "x", null]}`, `{a: [1, "x", null], b: 1}`, map[string]any{"a": []any{1, "x", nil}, "b": 1},
+			[]any{map[string]any{"b": int64(1), "a": []any{int64(1), "x", nil}}, map[string]any{"b": float64(1), "a": []any{float64(1), "x", nil}}}},
+			{`{"n": {"m": {"z": 1.5, "y": true}}}`, `{n: {m: {y: true, z: 1.5}}}`, map[string]any{"n": map[string]any{"m": map[string]any{"y": true, "z": 1.5}}}, nil}},
+		"ai": {{"[1, 2, 3]", "[1, 2, 3]", []int64{1, 2, 3}, []any{[]any{1, 2, 3}, []any{int64(1), int64(2), int64(3)}, []any{float64(1), float64(2), float64(3)}, []int{1, 2, 3}}},
+			{"[]", "[]", []int64{}, []any{[]any{}}},
+			{"[1, null]", "[1, null]", []immutable.Option[int64]{immutable.Some(int64(1)), immutable.None[int64]()}, []any{[]any{1, nil}, []any{float64(1), nil}}}},
+		"as": {{`["a", ""]`, `["a", ""]`, []string{"a", ""}, []any{[]any{"a", ""}}}},
+		"bl": {{`"00ff10"`, `"00ff10"`, "00ff10", nil}, {`"DEADbeef"`, `"DEADbeef"`, "DEADbeef", nil}},
+		"af": {{"[1.5, 2]", "[1.5, 2.0]", []float64{1.5, 2}, []any{[]any{1.5, 2}, []any{1.5, float64(2)}, []any{1.5, int64(2)}}},
+			{"[1.5, null]", "[1.5, null]", []immutable.Option[float64]{immutable.Some(1.5), immutable.None[float64]()}, []any{[]any{1.5, nil}}}},
 	}
-	fieldNames := []string{"i", "f", "s", "b", "t", "j", "ai", "as"}
+	fieldNames := []string{"i", "f", "s", "b", "t", "j", "ai", "as", "bl", "af"}
 	seen := map[string]struct{}{}
+	rejected := 0
 	// every non-empty subset of <= 3 fields x every value combination x routes x field permutations x null-vs-omitted
 	var rec func(start int, cur []string)
 	var subsets [][]string
@@ -396,6 +420,22 @@ func c13DocIDs(r *rep.Run) (evals, distinct int) {
 					} else {
 						record("map", "", err)
 					}
+					// the same values in every other Go representation the map route accepts (one field at a time)
+					for k := range sub {
+						for ai, alt := range combo[k].alts {
+							m2 := map[string]any{}
+							for kk, vv := range m {
+								m2[kk] = vv
+							}
+							m2[sub[k]] = alt
+							route := fmt.Sprintf("map with %s as %T (alternative %d)", sub[k], alt, ai)
+							if d3, err := client.NewDocFromMap(m2, col.Definition()); err == nil {
+								record(route, d3.ID().String(), nil)
+							} else {
+								rejected++ // a Go type the map route refuses is not a construction route
+							}
+						}
+					}
 					st.Restore(base)
 					data, errs := world.Exec(ctx, d, fmt.Sprintf(`mutation { create_K(input: {%s}) { _docID } }`, strings.Join(gp, ", ")))
 					if len(errs) > 0 {
@@ -441,6 +481,7 @@ func c13DocIDs(r *rep.Run) (evals, distinct int) {
 		}
 	}
 	r.Coverage["docid_evaluations"] = evals
+	r.Coverage["docid_go_representations_rejected_by_the_map_route"] = rejected
 	r.Coverage["docid_distinct_documents"] = len(seen)
 	return evals, len(seen)
 }
